@@ -484,6 +484,9 @@ Definition lf_print_wellknown_g (guard : bool) (rs : list lf_res) (filter : opti
 (* the code as it is now (both length guards present) *)
 Definition lf_print_wellknown := lf_print_wellknown_g true.
 
+Definition lf_rtotal_of (r : lf_m lf_ret) : option Z :=
+  match r with LfVal x => Some (lf_rtotal x) | _ => None end.
+
 (* ------------------------------------------------------------------ hnd_get_wellknown_lkd *)
 
 Definition lf_uint_max : Z := 4294967295.
